@@ -4,7 +4,7 @@
    models DateModel (helper.go) and CropParamModel (cropparam.go); only statements, each closed by
    [exact lemma], and Print Assumptions. *)
 From Coq Require Import ZArith List Bool Ascii String Floats.
-From Hermes Require Import Util Num Calendar DateModel DateProofs CropParamModel CropParamProofs SoilModel SoilProofs RotaReaderModel RotaReaderProofs MeasModel MeasProofs CropSamples C13Proofs.
+From Hermes Require Import Util Num Calendar DateModel DateProofs PredDateModel CropParamModel CropParamProofs SoilModel SoilProofs RotaReaderModel RotaReaderProofs MeasModel MeasProofs CropSamples C13Proofs.
 Local Open Scope Z_scope.
 
 (* the four date formats (with any separator of length <= 1) of one civil date are read as the
@@ -16,6 +16,15 @@ Theorem C13_dates_agree : forall f1 f2 sep1 sep2 cent y m d,
     date_converter cent f1 (render_date f1 sep1 y m d) = Some (doy (mkdate y m d), n) /\
     date_converter cent f2 (render_date f2 sep2 y m d) = Some (doy (mkdate y m d), n).
 Proof. exact dates_agree_lemma. Qed.
+
+(* the fertiliser-prediction date (longday.go LangTagConverter) is written in the project's date format too:
+   the year LangTag takes from it = the year DateConverter takes from it = the civil year - 1900, in all
+   four formats with the century split of the two-digit ones *)
+Theorem C13_prediction_year_agrees : forall f sep cent y m d,
+  sep_ok sep -> 0 <= cent <= 100 -> 1901 <= y <= 2099 -> valid_date (mkdate y m d) = true -> in_window f cent y ->
+  langtag_year cent f (render_date f sep y m d) = Some (y - 1900) /\
+  datum_year cent f (render_date f sep y m d) = Some (y - 1900).
+Proof. exact prediction_year_lemma. Qed.
 
 (* classic crop parameter file vs the YAML record the shipped converter makes of it: the two
    readers put the model into the same state, whatever the state before (T: any number type; a
@@ -100,6 +109,7 @@ Example C13_nonvacuous :
 Proof. exact sample_converts. Qed.
 
 Print Assumptions C13_dates_agree.
+Print Assumptions C13_prediction_year_agrees.
 Print Assumptions C13_crop_yaml_agree.
 Print Assumptions C13_bbch_in_range_suffices.
 Print Assumptions C13_bbch_difference_refuted.
